@@ -23,7 +23,7 @@ ASSUMPTIONS = [
     "String append/assign/compare and Map<String,String> ordering (strcmp) behave as byte lists and a sorted association list "
     "(properties C03, C02); Array/Stack push, pop, index within bounds behave as lists",
     "reference counting of Xml nodes (NodeBase rc) frees every node exactly once, and tearing a tree down needs bounded call-stack "
-    "(iterative ~_Xml since fix dede87b): observed by ASan/LSan on every run incl. documents nested 300000 levels, not modelled",
+    "(iterative ~_Xml since fix dede87b, iterative text() since fix f16a8e9): observed by ASan/LSan on every run incl. documents nested 300000 levels, not modelled",
 ]
 TECHNIQUE = ("Lean 4 theorems (invariants over the decoder state machine, structural induction over element trees) about an "
              "executable transcription of Xml::decode / XmlCodec::encode + differential correspondence check under ASan")
@@ -697,6 +697,9 @@ def oracle(case, impl, model, crash):
         if case and all(l.startswith("sub ") for l in case):
             return True, ("looking at a node of the decoded tree (parent(), children) after the tree itself was released is a memory "
                           "error: %s" % crash)
+        if case and all(l.startswith("deep ") for l in case):
+            return True, ("decoding a deeply nested document, walking the result (children, parent(), text()) or destroying it is a "
+                          "memory error: %s" % crash)
         return True, "Xml::decode / encode did not terminate normally (memory error or abort): %s" % crash
     outs = [o for o in impl if o != "case"]
     for l, o in zip(case, outs):
@@ -796,7 +799,9 @@ LEVEL_TEXT = ("Proved in Lean 4 about the executable transcription of Xml::decod
               "returned tree, at every depth, each child's parent pointer is the identity of the element containing it; "
               "(2b) xml_root_parent_null — the returned element's own parent is null (code after fix 5247de7; before it parent() read freed "
               "memory); (2c) xml_survivor_links — a node of the returned tree kept while the tree is released has a null parent and intact "
-              "links below it (code after fix c581d77; before it parent() read freed memory); (3) xml_roundtrip_compact — for EVERY element tree (any depth/fan-out) whose tag and attribute names pass the decoder's own "
+              "links below it (code after fix c581d77; before it parent() read freed memory); (2d) xml_text_roundtrip — text() of "
+              "decode(encode(t)) is the first-child-chain text of normalize(t) (text() is observed on every decoded result by K, incl. a "
+              "300000-deep chain: recursive before fix f16a8e9); (3) xml_roundtrip_compact — for EVERY element tree (any depth/fan-out) whose tag and attribute names pass the decoder's own "
               "name tests (xml_names_accepted: every XML 1.0 Name as UTF-8 bytes does), with arbitrary NUL-free attribute values and text, decode(encode(t,false)) is a tree whose erasure equals "
               "normalize(t) (merge adjacent text, drop whitespace-only text; normalize is an independent specification, proved equal to what "
               "the decoder rebuilds); (4) xml_roundtrip_indented — the same for encode(t,true) when text occurs only as a sole child; "
